@@ -283,6 +283,9 @@ func (it *Interp) shouldInit(pkg *ssa.Package) bool {
 	if v, ok := initAllowStd[path]; ok {
 		return v
 	}
+	if strings.HasPrefix(path, "github.com/Azure/retry") {
+		return true
+	}
 	switch path {
 	case "github.com/Azure/retry/exponential", "github.com/gostdlib/base/retry/exponential",
 		"github.com/gostdlib/base/statemachine", "github.com/google/uuid",
